@@ -24,12 +24,15 @@
         target is cloned into a temporary *before* `e` is lowered);
       - `return`; `while` (examinee temporary allocated first, condition
         re-evaluated on every iteration).
+      - `Option.Some(e)` (`enum_constructor` + `make_enum`), `Option.None`,
+        `accept e` / `reject e` (the operand stays lazy until `make_enum` stores
+        it), `e?` (`question_mark`).
   * the temporary counter `tmp_idx` (both `tmp()` and `undropped_tmp()` bump it).
 
   Not modelled in this version (`lowerE` returns `none`): script-function
-  calls, `match`, `for`, `?`, `Some`/`None`, enum constructors, records, field
-  access, lists, f-strings, `accept`/`reject`; the `stack_slots` bookkeeping
-  and the `drop` instructions (they have no effect on the order of host calls).
+  calls, `match`, `for`, user enum constructors, records, field access, lists,
+  f-strings; the `stack_slots` bookkeeping and the `drop` instructions (they
+  have no effect on the order of host calls).
 
   The semantics of structured MIR is the relation `ExecC` below (big-step, the
   store is a total map from variables to values); `Props/C08.lean` proves that
@@ -58,6 +61,8 @@ inductive Value
   | not (x : Var)
   | neg (x : Var)
   | callRt (f : Nat) (args : List Var)
+  | disc (x : Var)                   -- `Value::Discriminant`
+  | cloneProj (x : Var) (i : Nat)    -- `Clone` of a place with one projection: field / variant field `i`
   deriving Repr, Inhabited
 
 /-- Structured MIR. -/
@@ -68,6 +73,13 @@ inductive Stm
   /-- `cond; switch ex [(1, body; jump cond)] default cont` -/
   | whl (cond : List Stm) (ex : Var) (body : List Stm)
   | ret (x : Var)
+  /-- `SetDiscriminant`: `to` becomes the given variant with blank fields
+      (also used, with an empty record, where a record temporary starts to be filled) -/
+  | setDisc (to : Var) (blank : Val)
+  /-- assignment to `to.field_i` / `to.Variant#i` -/
+  | assignField (to : Var) (i : Nat) (v : Value)
+  /-- `switch x [(k, thn)] default els` on a discriminant -/
+  | iteD (x : Var) (k : Nat) (thn els : List Stm)
   deriving Repr, Inhabited
 
 abbrev Code := List Stm
@@ -75,6 +87,31 @@ abbrev Code := List Stm
 abbrev Store := Var → Val
 
 def Store.set (σ : Store) (x : Var) (v : Val) : Store := fun y => if y = x then v else σ y
+
+/-- The discriminant of an enum value (`Some` = 0, `None` = 1; `Accept` = 0, `Reject` = 1). -/
+def discOf : Val → Option Nat
+  | .opt (some _) => some 0
+  | .opt none => some 1
+  | .enm k _ => some k
+  | .verdict true _ => some 0
+  | .verdict false _ => some 1
+  | _ => none
+
+/-- Field `i` of an aggregate value. -/
+def payload : Val → Nat → Option Int
+  | .opt (some v), 0 => some v
+  | .verdict _ v, 0 => some v
+  | .enm _ fs, i => fs[i]?
+  | .recd fs, i => fs[i]?
+  | _, _ => none
+
+/-- Store `n` into field `i` (a record is filled front to back). -/
+def setPayload : Val → Nat → Int → Option Val
+  | .opt (some _), 0, n => some (.opt (some n))
+  | .verdict b _, 0, n => some (.verdict b n)
+  | .enm k fs, i, n => if i < fs.length then some (.enm k (fs.set i n)) else none
+  | .recd fs, i, n => if i = fs.length then some (.recd (fs ++ [n])) else none
+  | _, _, _ => none
 
 /-- Evaluate an assignment's operand: the calls it makes and its value. -/
 def evalValue (σ : Store) : Value → Option (Trace × Val)
@@ -91,6 +128,8 @@ def evalValue (σ : Store) : Value → Option (Trace × Val)
   | .callRt f args =>
     let vs := args.map σ
     (hostSem f vs).map (fun v => ([⟨f, vs⟩], v))
+  | .disc x => (discOf (σ x)).map (fun d => ([], .int d))
+  | .cloneProj x i => (payload (σ x) i).map (fun v => ([], .int v))
 
 inductive Outcome
   | normal (σ : Store)
@@ -113,6 +152,11 @@ inductive ExecS : Store → Stm → Trace → Outcome → Prop
   | whlStep {σ cond ex body t1 σ1 t2 σ2 t3 o} :
       ExecC σ cond t1 (.normal σ1) → σ1 ex = .bool true → ExecC σ1 body t2 (.normal σ2) →
       ExecS σ2 (.whl cond ex body) t3 o → ExecS σ (.whl cond ex body) (t1 ++ t2 ++ t3) o
+  | setDisc {σ x blank} : ExecS σ (.setDisc x blank) [] (.normal (σ.set x blank))
+  | assignField {σ x i v t n val} : evalValue σ v = some (t, .int n) → setPayload (σ x) i n = some val →
+      ExecS σ (.assignField x i v) t (.normal (σ.set x val))
+  | iteDThen {σ x k thn els t o} : σ x = .int k → ExecC σ thn t o → ExecS σ (.iteD x k thn els) t o
+  | iteDElse {σ x k d thn els t o} : σ x = .int d → d ≠ k → ExecC σ els t o → ExecS σ (.iteD x k thn els) t o
 /-- … of a sequence: a `return` ends it. -/
 inductive ExecC : Store → Code → Trace → Outcome → Prop
   | nil {σ} : ExecC σ [] [] (.normal σ)
@@ -240,6 +284,30 @@ def lowerE : Expr → Nat → Option (Code × Value × Nat)
     let xe := atvVar ve c
     let c := atvNext ve c
     pure (ce ++ me ++ [.ret xe], .const .unit, c)
+  | .some e, c => do
+    -- `enum_constructor`: the argument is lowered and materialised, then `make_enum`
+    let (ce, ve, c) ← lowerE e c
+    let me := atvCode ve c
+    let xe := atvVar ve c
+    let c := atvNext ve c
+    pure (ce ++ me ++ [.setDisc (.t c) (.opt (some 0)), .assignField (.t c) 0 (.move xe)], .move (.t c), c + 1)
+  | .none, c => some ([.setDisc (.t c) (.opt none)], .move (.t c), c + 1)
+  | .accept e, c => do
+    -- `return`: the operand stays lazy until `make_enum` stores it in the variant's field
+    let (ce, ve, c) ← lowerE e c
+    pure (ce ++ [.setDisc (.t c) (.verdict true 0), .assignField (.t c) 0 ve, .ret (.t c)], .const .unit, c + 1)
+  | .reject e, c => do
+    let (ce, ve, c) ← lowerE e c
+    pure (ce ++ [.setDisc (.t c) (.verdict false 0), .assignField (.t c) 0 ve, .ret (.t c)], .const .unit, c + 1)
+  | .try e, c => do
+    -- `question_mark`: examinee materialised, discriminant read, `switch d [0 => continue] else return-none`
+    let (ce, ve, c) ← lowerE e c
+    let me := atvCode ve c
+    let xe := atvVar ve c
+    let c := atvNext ve c
+    pure (ce ++ me ++ [.assign (.t c) (.disc xe),
+                       .iteD (.t c) 0 [] [.setDisc (.t (c + 1)) (.opt none), .ret (.t (c + 1))]],
+          .cloneProj xe 0, c + 2)
   | _, _ => none
 
 /-- receiver and arguments: each one lowered, then stored in a fresh temporary -/
